@@ -12,6 +12,7 @@ Proved: `C06_partial` (= the full statement under `NoEviction` and `Lifecycle`),
 the code's own notion of a block cache's context), `memo_sound` (the invariant), `fork_independent`.
 -/
 import Verif.Lemmas.StateCacheWitness
+import Verif.Lemmas.StateCacheBound
 namespace Verif.Props.C06
 open Verif.SC
 
@@ -59,6 +60,25 @@ theorem C06_partial (capK maxDepth : Nat) (ops : List (Op H K B V))
     (hne : NoEviction (Sys.new capK maxDepth) ops) (hlc : Lifecycle (Sys.new capK maxDepth) [] ops) :
     AllOK true (Sys.new capK maxDepth) [] ops :=
   (C06_code_view capK maxDepth ops hne).of_lifecycle hlc
+
+/-- `noEviction_of_counts`: a static sufficient condition for `NoEviction`, checkable by inspecting the history: for
+    every key, the number of lookups of that key plus the number of block commits is at most the per-key capacity
+    (each can add at most one item to the key's version map), and the number of block commits is at most the capacity
+    of the link cache. (Coarser than the harness's matcher, which counts distinct blocks, but sound.) -/
+theorem noEviction_of_counts (capK maxDepth : Nat) (ops : List (Op H K B V))
+    (hK : ∀ k, (ops.filter (fun o => o.touches k)).length ≤ capK)
+    (hC : (ops.filter (fun o => o.isCommit)).length ≤ maxDepth) :
+    NoEviction (Sys.new capK maxDepth) ops :=
+  Sys.run_noEviction capK maxDepth ops _ (fun _ => 0) 0 (Len.init capK maxDepth)
+    (fun k => by simpa using hK k) (by simpa using hC)
+
+/-- `C06_static`: the full statement for every history that respects the life cycle and stays within the static
+    counts — no run-time hypothesis. -/
+theorem C06_static (capK maxDepth : Nat) (ops : List (Op H K B V))
+    (hK : ∀ k, (ops.filter (fun o => o.touches k)).length ≤ capK)
+    (hC : (ops.filter (fun o => o.isCommit)).length ≤ maxDepth)
+    (hlc : Lifecycle (Sys.new capK maxDepth) [] ops) : AllOK true (Sys.new capK maxDepth) [] ops :=
+  C06_partial capK maxDepth ops (noEviction_of_counts capK maxDepth ops hK hC) hlc
 
 /-- `fork_independent`: the answer for `(k, b)` only reads the blocks on `b`'s own ancestor chain — two trees that agree
     on those blocks give the same answer. -/
